@@ -52,6 +52,9 @@ CMDS = {
     "req_cyc": "require CycA",
     "loop_err": "for i in [1, 2, 3] do if i == 2 then error 'x'; end",
     "say": "println('hi'); 1",
+    # a session may define its own stdout: both print forms follow it
+    "def_out": "require IO; def stdout = IO->str_output(); 1",
+    "say2": "print('p'); println('q'); 2",
     # a definition whose right-hand side fails binds nothing
     "class_fail": "def class Point do def x = 1; def y = 1 / 0 end",
     "def_fail": "def v = [1, 1 / 0]",
@@ -167,15 +170,32 @@ class Sessions(e4.Explorer):
         spec = CMDS[name]
         before = {w: len(x.out.getvalue())
                   for w, x in state.sessions.items()}
+        details = []
+
+        def once():
+            try:
+                if isinstance(spec, tuple):
+                    env = s.E if spec[0] == "E" else s.inner
+                    return s.interp.interpret(spec[1], "session", env)
+                return s.interp.interpret(spec, "session")
+            except core.CklRuntimeError as e:
+                details.append(["rt", repr(e.value), str(e.pos),
+                                [str(x) for x in e.stacktrace]])
+                raise
+            except core.CklSyntaxError as e:
+                details.append(["syn", str(e.msg), str(e.pos)])
+                raise
         core.set_fuel(100000, 100000)
         try:
-            if isinstance(spec, tuple):
-                env = s.E if spec[0] == "E" else s.inner
-                o = core.outcome_of(lambda: s.interp.interpret(
-                    spec[1], "session", env))
-            else:
-                o = core.outcome_of(lambda: s.interp.interpret(
-                    spec, "session"))
+            o = core.outcome_of(once)
+            if o[0] in ("rt", "syn"):
+                # a failed call is repeated at once: it must fail in exactly
+                # the same way (value, position, call trace) and - by the
+                # statement - leaves nothing behind that the model would see
+                o2 = core.outcome_of(once)
+                if o2[0] != o[0] or len(details) != 2 or \
+                        details[0] != details[1]:
+                    details.append("differs")
         finally:
             core.set_fuel(10 ** 12, 10 ** 12)
         # text that arrived on each interpreter's own output stream
@@ -190,6 +210,8 @@ class Sessions(e4.Explorer):
             r = list(o)
         if outs:
             r.append({"output": outs})
+        if details and details[-1] == "differs":
+            r.append({"repeat": details[:2]})
         return r
 
     def model_step(self, model, cmd):
@@ -259,7 +281,14 @@ class Sessions(e4.Explorer):
         elif name == "loop_err":
             exp = ["rt", "'x'"]
         elif name == "say":
-            exp = ["value", "1", {"output": [[who, "hi\n"]]}]
+            exp = ["value", "1"] if s.get("redir") else \
+                ["value", "1", {"output": [[who, "hi\n"]]}]
+        elif name == "def_out":
+            s["redir"] = True
+            exp = ["value", "1"]
+        elif name == "say2":
+            exp = ["value", "2"] if s.get("redir") else \
+                ["value", "2", {"output": [[who, "pq\n"]]}]
         elif name in ("class_fail", "def_fail"):
             exp = ERR
         elif name == "read_pv":
@@ -389,9 +418,10 @@ def main(tier, seed):
            "bump", "req_missing", "env_def", "env_read", "say", "str_edit"]
     light = ("div0", "syntax", "req_syn", "req_missing", "loop_err",
              "read_q", "def_fail", "str_def", "seed", "rnd", "rnd_fail",
-             "class_fail", "read_pv", "str_edit")
+             "class_fail", "read_pv", "str_edit", "def_out", "say2")
     # small closed groups of commands that only interact with each other
     groups = [(["seed", "rnd", "rnd_fail", "div0"], 4),
+              (["def_out", "say", "say2", "partial", "div0"], 3),
               (["class_fail", "def_fail", "read_pv", "def_a", "str_edit",
                 "str_def"], 3)]
     if tier == "quick":
